@@ -53,4 +53,50 @@ Proof.
   - intros y Hy. unfold sy, skip_y. rewrite getB_map_seq' by exact Hy. reflexivity.
   - exact Hpm.
 Qed.
+
+(* the score of EVERY answer of a node -- Feasible or Infeasible -- is the recomputed score of the assignment decoded from its matching *)
+Theorem run_node_any_score nd r : run courses parts rgate pick nd = Val r ->
+  match r with Feasible _ s | Infeasible _ s => exists a, s = score_of courses parts a | NoSolution => True end.
+Proof.
+  unfold run, run_node.
+  set (sx1 := skip_x1 courses parts nd). set (nsx := countB sx1). set (sy := skip_y courses nd). set (nsy := countB sy).
+  destruct (_ <? sumN _); [intros H; inversion H; exact I|]. destruct (sumN _ <? _); [intros H; inversion H; exact I|]. destruct (existsb _ (seq 0 np)); [intros H; inversion H; exact I|].
+  destruct ((n_ <? m_) || (n_ - m_ + nsy <? nsx)) eqn:G1; [discriminate|].
+  apply orb_false_iff in G1. destruct G1 as [G1a G1b]. apply Nat.ltb_ge in G1a, G1b.
+  set (extra := n_ - m_ + nsy - nsx). destruct (n_ <? np + extra) eqn:G2; [discriminate|]. apply Nat.ltb_ge in G2.
+  set (sx := map (fun x => getB sx1 x || ((np <=? x) && (x <? np + extra))) (seq 0 n_)).
+  set (my := mandatory_y courses nd).
+  destruct (existsb (fun y => getB my y && getB sy y) (seq 0 m_)); [discriminate|].
+  assert (Hlsx1 : length sx1 = n_) by (unfold sx1, skip_x1; rewrite map_length, seq_length; reflexivity).
+  assert (Hlsx : length sx = n_) by (unfold sx; rewrite map_length, seq_length; reflexivity).
+  assert (Hlsy : length sy = m_) by (unfold sy, skip_y; rewrite map_length, seq_length; reflexivity).
+  assert (Hsx1_np : forall x, getB sx1 x = true -> x < np).
+  { intros x H. destruct (lt_dec x n_) as [Hx|Hx].
+    - unfold sx1, skip_x1 in H. rewrite getB_map_seq' in H by exact Hx. apply andb_prop in H. destruct H as [H _]. apply Nat.ltb_lt in H. exact H.
+    - unfold getB in H. rewrite nth_overflow in H by lia. discriminate. }
+  assert (Hcnt : countB sx = nsx + extra).
+  { unfold sx. rewrite countB_map. rewrite filter_or_disj.
+    - fold (cntf (getB sx1) n_). fold (cntf (fun x => (np <=? x) && (x <? np + extra)) n_). rewrite cntf_interval by exact G2.
+      unfold cntf. rewrite (count_filter sx1 n_ Hlsx1), cntT_countB. reflexivity.
+    - intros x _ H. apply Hsx1_np in H. apply andb_false_iff. left. apply Nat.leb_gt. exact H. }
+  assert (Hsq : length (rowsL sx n_) = length (colsL sy m_)).
+  { rewrite (rows_len sx n_ Hlsx), (cols_len sy m_ Hlsy), Hcnt. pose proof (countB_le sy). fold nsy in H. rewrite Hlsy in H.
+    unfold extra. lia. }
+  pose proof (hungarian_partial (adjacency courses parts) (dummy_x courses parts) my sx sy n_ m_ Hsq) as HP.
+  destruct (hungarian (adjacency courses parts) (dummy_x courses parts) my sx sy n_ m_) as [[[[mm ms] lx] ly]| |]; try discriminate.
+  destruct HP as (Hpm & Hms & _).
+  assert (Hkey : (ms + instr_score courses parts nd)%Z = score_of courses parts (add_instr courses nd (amatch courses parts sy mm))).
+  { rewrite Hms.
+    apply (node_score_truthful courses parts Hinstr_rng Hone nd sx sy mm my (Hpairs nd)).
+    - intros p Hp. unfold sx. rewrite getB_map_seq' by (pose proof (np_le_n courses parts); lia).
+      replace ((np <=? p) && (p <? np + extra)) with false by (symmetry; apply andb_false_iff; left; apply Nat.leb_gt; exact Hp).
+      rewrite orb_false_r. unfold sx1, skip_x1. rewrite getB_map_seq' by (pose proof (np_le_n courses parts); lia).
+      replace (p <? np) with true by (symmetry; apply Nat.ltb_lt; exact Hp). reflexivity.
+    - intros y Hy. unfold sy, skip_y. rewrite getB_map_seq' by exact Hy. reflexivity.
+    - exact Hpm. }
+  destruct (rgate nd _) as [[bs|]|site|]; try discriminate.
+  - intros H. inversion H; subst r. eexists. exact Hkey.
+  - destruct (negb _ && existsb _ (seq 0 nc)); [discriminate|].
+    destruct (existsb _ (seq 0 np) || existsb _ (seq 0 nc)); intros H; inversion H; subst r; eexists; exact Hkey.
+Qed.
 End T.
